@@ -116,6 +116,18 @@ pub fn format_rfc3339(sec: i64, nsec: i64, off: i64, zulu_if_utc: bool) -> Strin
     format!("{}T{}{}{}", date, &time[1..], frac, zone)
 }
 
+/// RFC 3339 with the relaxations the shipped CLI accepts (chrono's documented "relaxed RFC 3339"):
+/// bit 0: a space instead of `T`; bit 1: a space before the zone; bit 2: numeric zone without colon.
+pub fn format_time_spelled(sec: i64, nsec: i64, off: i64, zulu_if_utc: bool, spelling: u8) -> String {
+    let wall = format_wall(sec + off);
+    let (date, time) = wall.split_at(10);
+    let frac = if nsec == 0 { String::new() } else { format!(".{:09}", nsec) };
+    let zone = if off == 0 && zulu_if_utc { "Z".to_string() } else { format_offset(off, spelling & 4 == 0) };
+    let sep = if spelling & 1 != 0 { " " } else { "T" };
+    let gap = if spelling & 2 != 0 { " " } else { "" };
+    format!("{}{}{}{}{}{}", date, sep, &time[1..], frac, gap, zone)
+}
+
 /// Can instant `sec` be written with a four-digit year in the zone `off`?
 pub fn fits_rfc3339(sec: i64, off: i64) -> bool {
     let w = sec + off;
